@@ -847,9 +847,29 @@ func (e *Exec) parseIntRope(fr *frame, s value, bitSize int, fname string) value
 				return tuple{int64(0), mkErr()}
 			}
 		}
+		if e.cannotBeNumeric(p) {
+			return tuple{int64(0), mkErr()}
+		}
 		panic(abortPath{why: "ParseInt of composite symbolic string", kind: "unsupported"})
 	}
 	panic(fmt.Sprintf("parseInt: %T", s))
+}
+
+// cannotBeNumeric: the string provably does not start like a number (digit, sign, '.', inf, nan).
+func (e *Exec) cannotBeNumeric(p []piece) bool {
+	if len(p) == 0 {
+		return true
+	}
+	switch p[0].k {
+	case pLit:
+		c := p[0].lit[0]
+		return !(c >= '0' && c <= '9' || strings.IndexByte("+-.iInN", c) >= 0)
+	case pByte:
+		b := p[0].t
+		start := "(or (and (bvuge " + b + " #x30) (bvule " + b + " #x39)) (= " + b + " #x2b) (= " + b + " #x2d) (= " + b + " #x2e) (= " + b + " #x69) (= " + b + " #x49) (= " + b + " #x6e) (= " + b + " #x4e))"
+		return e.valid("(not " + start + ")")
+	}
+	return false
 }
 
 func (e *Exec) assumeNotNumeric(tok string) {
@@ -887,6 +907,9 @@ func (e *Exec) parseFloatRope(fr *frame, s value) value {
 				e.Stats.Assumptions["a string built from an opaque token and other text is not numeric"] = true
 				return tuple{float64(0), fr.i.newError(fr, "strconv.ParseFloat: parsing: invalid syntax")}
 			}
+		}
+		if e.cannotBeNumeric(p) {
+			return tuple{float64(0), fr.i.newError(fr, "strconv.ParseFloat: parsing: invalid syntax")}
 		}
 		panic(abortPath{why: "ParseFloat of composite symbolic string", kind: "unsupported"})
 	}
